@@ -13,8 +13,8 @@ from harness.tr import mk_array
 EVIDENCE = {
     "functions": ["operators.dist (all kind dispatch branches reached below)", "operators._point_dist", "operators.angle", "operators.crossratio (from_point branch)", "SubspaceTensor.project",
                   "LineTensor.perpendicular/mirror", "PlaneTensor.perpendicular", "utils.math.orth (SVD contract stub)", "SegmentTensor.length", "PointLikeTensor._normalize_array"],
-    "bounds": "2-D: all coordinates free reals (arbitrary representatives); 3-D point-point distance through the SVD contract stub (orthonormal frame composed with an arbitrary rotation), "
-              "point-plane distance with free reals; angle: three points / two lines in the plane; single objects",
+    "bounds": "2-D: all coordinates free reals (arbitrary representatives); angle: three points / two lines in the plane, lattice triangles in 3-space; point-segment distance for 3 lattice segments x free point; single objects; "
+              "supplementary concrete lattice evaluation (not a solver verdict): point x convex polygon in 3-space (also translated / shifted polygons) and cuboid on a 4^3 (thorough 6^3) lattice of points, parallel planes",
     "outside": "3-D distances (point-point through the SVD stub, point-plane): attempted (tier 'attempt'), not decided within budget -> not claimed; the numeric value of log (contract stub: the returned angle phi satisfies exp(2 i phi) = cr/|cr|), 3-D point-line distance (nested complex radicals), polygons / polyhedra "
                "as operands (thorough), collections (C04), rounding",
     "assumptions": ["np.log of a complex number: inverse of exp on the principal branch (stub)", "np.linalg.svd: contract stub", "ProjectiveTensor.__eq__/is_multiple: lemma proved in C20"],
